@@ -51,39 +51,80 @@ def _rect_of_view(op):
     return min(x0, x1), min(y0, y1), max(x0, x1), max(y0, y1)
 
 
+def _mode_for(mode, screen):
+    """Graphics Mode of the same adapter with the given SCREEN number (manual table) or None."""
+    return MODE_BY_NAME.get('%s/%d' % (mode.adapter, screen))
+
+
 def check_case(case):
     if case.get('text') is not None:
         return check_text(case)
     res = Result()
-    mode = MODE_BY_NAME[case['mode']]
-    W, H = mode.width, mode.height
+    mode0 = MODE_BY_NAME[case['mode']]
     ops = case['ops']
-    g = GfxSess(mode, case.get('ap', 0), case.get('vp', 0))
+    g = GfxSess(mode0, case.get('ap', 0), case.get('vp', 0))
     try:
         if g.setup_error:
             res.fail('setup', g.setup_error)
             return res
-        stmts = ['DIM A%(4000)'] + [op['t'] for op in ops]
+        probe = ['LOCATE 1,1:PRINT " ";', 'LOCATE 1,1:PRINT CHR$(219);']
+        stmts = ['DIM A%(4000)'] + [op['t'] for op in ops] + probe
+        p1, p2 = len(stmts) - 2, len(stmts) - 1
         o = g.load(stmts)
         if o is not None:
             res.fail('setup.load', 'storing the program: %r' % (o,))
             return res
         if case.get('bg') is not None:
             for p in range(g.npages):
-                g.put_rows(gfxutil.noise_rows(case['bg'] + p, W, H, mode.nattr, 64), page=p)
+                g.put_rows(gfxutil.noise_rows(case['bg'] + p, mode0.width, mode0.height,
+                                              mode0.nattr, 64), page=p)
         err, o = g.run(0)
         if err != 0:
             res.fail('setup.dim', 'DIM: %r %r' % (err, o))
             return res
-        res.label('mode:' + mode.name, 'pages:%s' % ('same' if g.apage == g.vpage else 'split'))
-        snaps = g.snap_all()
+        res.label('mode:' + mode0.name, 'pages:%s' % ('same' if g.apage == g.vpage else 'split'))
+        # ---- model state: current mode (None = text), active page, viewport --------------------
+        cur = mode0
+        W, H = cur.width, cur.height
         ap = g.apage
         view = (0, 0, W - 1, H - 1)
+        snaps = g.snap_all()
         nt = False
+
+        def history(i):
+            return ' : '.join(q['t'] for q in ops[:i])
+
+        def probe_active_page(i, expected):
+            """Where does console output land? (page-visible cross-check of the active page,
+            through the text subsystem - independent of the graphics statements under test)"""
+            nonlocal snaps
+            e1, o1 = g.run(p1, allow_output=True)
+            base = g.snap_all()
+            e2, o2 = g.run(p2, allow_output=True)
+            if e1 != 0 or e2 != 0:
+                res.fail('probe.err', 'PRINT probe after %s: %r %r' % (ops[i]['t'], e1, e2))
+                snaps = g.snap_all()
+                return expected
+            hit = g.changed_pages(base)
+            snaps = g.snap_all()
+            if hit == [expected]:
+                return expected
+            npg = len(g.display.pages)
+            if mode0.adapter == 'pcjr' and expected >= npg and hit == [0]:
+                # PCjr: a kept page number beyond the new mode's pages silently becomes 0
+                res.label('pcjr-page-reset')
+                return 0
+            res.fail('mode.active-page', 'after %s in %s (history: %s) console output lands on '
+                     'page(s) %r but the SCREEN history makes page %d the active page' % (
+                         ops[i]['t'], mode0.adapter, history(i), hit, expected))
+            return hit[0] if len(hit) == 1 else expected
+
         for i, op in enumerate(ops):
             kind = op['k']
-            before = snaps[ap]
+            npages = len(g.display.pages)
+            before = snaps[ap] if ap < len(snaps) else None
             err, o = g.run(i + 1)
+            where = cur.name if cur is not None else '%s/text' % mode0.adapter
             if err is None:
                 if o.kind == 'budget':
                     res.inconclusive = True
@@ -94,10 +135,72 @@ def check_case(case):
                         and o.exc == 'AssertionError' and (o.frame or '').endswith(':set_page')):
                     # finding (fixed fc57e203): page switch while a viewport is active
                     key = 'page.switch-with-view.AssertionError'
-                res.fail(key, '%s in %s: %r %s' % (op['t'], mode.name, o, o.tb or ''))
+                res.fail(key, '%s in %s: %r %s' % (op['t'], where, o, o.tb or ''))
                 break
             res.label('k:' + kind, 'err:%d' % err if err else 'ok')
-            # which rectangle of the active page may have changed?
+
+            # ---- SCREEN with a mode number ------------------------------------------------------
+            if kind == 'mode':
+                target = None if op['screen'] == 0 else _mode_for(mode0, op['screen'])
+                known = op['screen'] == 0 or target is not None
+                want_ap = op['ap'] if op.get('ap') is not None else ap
+                want_vp = op.get('vp')
+                same_mode = (target is cur) if known else False
+                if err != 0:
+                    # manual: unavailable mode number or page numbers beyond the mode's pages => 5
+                    excusable = (not known) or want_ap >= 1 or (want_vp or 0) >= 1
+                    if err != 5 or not excusable:
+                        res.fail('mode.err', '%s raised error %d in %s (active page %d); history: %s'
+                                 % (op['t'], err, where, ap, history(i)))
+                    ch = g.changed_pages(snaps) if len(snaps) == npages else [-1]
+                    if ch:
+                        res.fail('nochange.mode', '%s failed with error %d but changed page(s) %r'
+                                 % (op['t'], err, ch))
+                        snaps = g.snap_all()
+                    continue
+                if not known:
+                    res.fail('mode.err', '%s succeeded but the manual lists no such mode for %s'
+                             % (op['t'], mode0.adapter))
+                    break
+                res.label('mode-change:%s->%s' % (
+                    'text' if cur is None else 'gfx', 'text' if target is None else 'gfx')
+                    if not same_mode else 'mode-same')
+                if same_mode:
+                    ch = g.changed_pages(snaps)
+                    if ch:
+                        res.fail('nochange.mode', '%s (same mode) changed page(s) %r' % (op['t'], ch))
+                cur = target
+                if cur is not None:
+                    pix = g.display.pages[0].pixels
+                    if (pix.width, pix.height) != (cur.width, cur.height):
+                        res.fail('mode.dims', '%s: page is %dx%d, manual says %dx%d' % (
+                            op['t'], pix.width, pix.height, cur.width, cur.height))
+                        break
+                    W, H = cur.width, cur.height
+                else:
+                    pix = g.display.pages[0].pixels
+                    W, H = pix.width, pix.height
+                view = (0, 0, W - 1, H - 1)
+                ap = probe_active_page(i, want_ap)
+                if ap != case.get('ap', 0) or not same_mode:
+                    nt = True
+                continue
+
+            # ---- text mode: every graphics statement => Illegal function call, nothing changes ---
+            if cur is None and kind != 'page':
+                okset = {5, 6} if op.get('big') else {5}
+                if err not in okset:
+                    res.fail('text.err.' + kind, '%s in SCREEN 0 of %s: error %d, expected Illegal '
+                             'function call; history: %s' % (op['t'], mode0.adapter, err, history(i)))
+                ch = g.changed_pages(snaps)
+                if ch:
+                    res.fail('text.changed.' + kind, '%s in SCREEN 0 of %s changed page(s) %r' % (
+                        op['t'], mode0.adapter, ch))
+                    snaps = g.snap_all()
+                nt = True
+                continue
+
+            # ---- graphics mode: which rectangle of the active page may have changed? -------------
             new_ap = ap
             if kind == 'view' and err == 0:
                 vx0, vy0, vx1, vy1 = _rect_of_view(op)
@@ -110,12 +213,12 @@ def check_case(case):
                 allowed = None
                 newview = view
                 if kind == 'page':
-                    valid = op['ap'] < g.npages and op['vp'] < g.npages
+                    valid = op['ap'] < npages and op['vp'] < npages
                     if valid and err == 0:
                         new_ap = op['ap']
                     elif valid or err != 5:
                         # manual: page numbers beyond the mode's pages => Illegal function call
-                        res.fail('page.err', '%s raised %d with %d pages' % (op['t'], err, g.npages))
+                        res.fail('page.err', '%s raised %d with %d pages' % (op['t'], err, npages))
             else:
                 allowed = view
                 newview = view
@@ -124,20 +227,18 @@ def check_case(case):
             if changed:
                 if allowed is None:
                     res.fail('nochange.' + kind, '%s (err %d) in %s changed pixels: %s' % (
-                        op['t'], err, mode.name, gfxutil.describe_diff(before, after)))
+                        op['t'], err, where, gfxutil.describe_diff(before, after)))
                 elif not gfxutil.outside_rect_equal(before, after, allowed):
                     bad = [(x, y) for x, y in gfxutil.diff_pixels(before, after)
                            if not (allowed[0] <= x <= allowed[2] and allowed[1] <= y <= allowed[3])]
                     res.fail('clip.' + kind, '%s (err %d) in %s with viewport %r changed %d pixels '
                              'outside %r, e.g. %r; history: %s' % (
-                                 op['t'], err, mode.name, view, len(bad), allowed, bad[:3],
-                                 ' : '.join(q['t'] for q in ops[:i])))
+                                 op['t'], err, where, view, len(bad), allowed, bad[:3], history(i)))
             snaps[ap] = after
             for p in g.changed_pages(snaps, skip=ap):
                 res.fail('page.' + kind, '%s (err %d) in %s changed page %d while page %d is '
                          'active (visual %d); history: %s' % (
-                             op['t'], err, mode.name, p, ap, g.display.vpagenum,
-                             ' : '.join(q['t'] for q in ops[:i])))
+                             op['t'], err, where, p, ap, g.display.vpagenum, history(i)))
                 snaps[p] = g.snap(p)
             small = view != (0, 0, W - 1, H - 1)
             if (small and op.get('x')) or (changed and ap != g.display.vpagenum):
@@ -145,7 +246,10 @@ def check_case(case):
             if small and op.get('x'):
                 res.label('crossing')
             view = newview
-            ap = new_ap
+            if kind == 'page' and err == 0 and new_ap != ap or (kind == 'page' and op.get('probe')):
+                ap = probe_active_page(i, new_ap)
+            else:
+                ap = new_ap
         res.nt(nt)
     finally:
         g.close()
